@@ -6,8 +6,8 @@ namespace Props.C39
 open Model.Bitfun
 
 /-- pinned code: the top bit is dropped -/
-example : reverseBits 0b11100001 8 = 0b10000110 ∧ Spec.Bits.reverse 8 0b11100001 = 0b10000111 := by decide
-example : encodeImm32 (2 ^ 32 + 1) = .ok 1 ∧ Spec.ArmImm.representableB (2 ^ 32 + 1) = false := by decide
+example : reverseBitsPinned 0b11100001 8 = 0b10000110 ∧ Spec.Bits.reverse 8 0b11100001 = 0b10000111 := by decide
+example : encodeImm32Pinned (2 ^ 32 + 1) = .ok 1 ∧ Spec.ArmImm.representableB (2 ^ 32 + 1) = false := by decide
 
 theorem stage0 : reverseBits 0 0 = 0 := by decide
 end Props.C39
